@@ -9,7 +9,10 @@ against the six real front-ends; (b) composed(): on generated line sequences the
 a tag block queue) against IterMessages / NMEAQueue per line, and the extracted decode_api on the part lines of every message
 (arrival order and reversed) against pyais.decode_nmea_and_ais attribute by attribute.  Model/Socket.v is tied by C06's run.
 Oracle: pairwise equality of the delivered sequences (raw, payload, bits, validity, wrapper fields, tag block) of the six
-front-ends; decode(*parts) against .decode() of the delivered sentence."""
+front-ends; decode(*parts) against .decode() of the delivered sentence.
+Backpressure extension (C07_bounded_queue): wherever NMEAQueue is a front-end the same lines also go into a bounded
+NMEAQueue(maxsize=k) with non-blocking puts (stream_common.py, "bounded NMEAQueue"); what comes out must be, line by line, what
+the unbounded reference and the first front-end deliver at the accepted lines."""
 import os
 import sys
 
